@@ -38,6 +38,7 @@ def Ty.beq : Ty → Ty → Bool
   | .union as, .union bs => Ty.beqList as bs || (Ty.subsetBy as bs && Ty.subsetBy bs as)
   | .subclass c, .subclass d => c == d
   | .annotated a, .annotated b => Ty.beq a b
+  | .tvar i, .tvar j => i == j
   | _, _ => false
 termination_by a b => sizeOf a + sizeOf b
 def Ty.beqList : List Ty → List Ty → Bool
@@ -112,7 +113,6 @@ mutual
 /-- `e.can_assign(a)`; `x` = `ctx.should_exclude_any()`. -/
 def ca (tbl : ClassTable) (x : Bool) : Ty → Ty → Bool
   | .any, _ => true                                            -- AnyValue.can_assign
-  | .union _, .annotated (.union []) => false                 -- is_union(other), not the Never singleton, no members
   | e, .annotated t => ca tbl x e t                            -- AnnotatedValue.can_be_assigned
   | e, .union bs => caAllR tbl x e bs                          -- Value.can_assign / MultiValuedValue
   | .union es, a =>                                            -- MultiValuedValue.can_assign
@@ -148,6 +148,7 @@ def ca (tbl : ClassTable) (x : Bool) : Ty → Ty → Bool
        | some (_, [their]) => caAnyM tbl x ms their
        | _ => typedCA tbl x c a)
   | .many _, _ => false
+  | .tvar _, _ => false                                        -- TypeVarValue: outside the modelled fragment
   | .subclass c, a =>
     (match a with
      | .subclass d => tbl.nominal x c d
